@@ -376,10 +376,21 @@ def bisect_rule(ctx: Ctx, method: str, list_attr: str) -> None:
                    f"self.{list_attr} is the projection {proj} of the state sequence, which is built in TaggedEvent order {kappa} (heapq.merge); "
                    f"'{proj[0]}' is only weakly monotone in that order, so entries with equal {proj[0]} carry tags out of order and bisect's sortedness "
                    f"precondition is not established (e.g. a stop on a warp's first beat)", node=b)
-    # the search key has the same shape as the projection
+    # the list holds the states' own values, unchanged (a rounded or converted copy orders differently from the states themselves)
+    raw_elts = (v.args[0].body.elts if (isinstance(v, ast.Call) and isinstance(v.func, ast.Name) and v.func.id == "map") else v.elt.elts)
+    exact = all(isinstance(e, ast.Attribute) and isinstance(e.value, ast.Attribute) and e.value.attr == "event" and isinstance(e.value.value, ast.Name) for e in raw_elts)
+    ctx.expect("R-BISECT", f, f"self.{list_attr} holds the states' own ({', '.join(proj)}) values unchanged", exact, "", f"the list is built from {[src(e, 50) for e in raw_elts]}: "
+               "a rounded / converted copy does not order the same way as the states it indexes, so the state found is not the one in force", node=st)
+    # the search key has the same shape as the projection, and its first element is what the caller asked about, unchanged
     key = inline(b.args[1], f)
     okk = isinstance(key, ast.Tuple) and len(key.elts) == len(proj)
     ctx.expect("R-BISECT", f, f"search key of {construct} is a ({', '.join(proj)}) pair", okk, src(key), f"key is {src(key)}", node=b)
+    if okk:
+        asked = f.param_names()[1]
+        k0 = key.elts[0]
+        same = isinstance(k0, ast.Name) and k0.id == asked and locals_of(f).only_param(asked)
+        ctx.expect("R-BISECT", f, f"the {method} search uses the asked {asked} itself", same, src(k0), f"the key's first element is {src(k0)}"
+                   + ("" if locals_of(f).only_param(asked) else f" and '{asked}' is re-bound before the search") + ": the list holds the states' own values, so a shifted or converted key finds another state", node=b)
     # index idiom: max(0, bisect(...) - 1), then self._state_machine[index]
     par = parent(f, b)
     idx_ok = isinstance(par, ast.BinOp) and isinstance(par.op, ast.Sub) and try_ev(ctx, f, par.right) == 1
@@ -720,7 +731,7 @@ def beatvalues_codec(ctx: Ctx, judge_source: bool = True) -> None:
         ge = rr[0].value.args[0] if rr[0].value.args else None
         if isinstance(sep, str) and isinstance(ge, ast.GeneratorExp) and len(ge.generators) == 1 and not ge.generators[0].ifs and isinstance(ge.elt, ast.JoinedStr):
             v = ge.generators[0].target.id
-            parts = [x.value if isinstance(x, ast.Constant) else "{" + ast.unparse(x.value) + "}" for x in ge.elt.values]
+            parts = [x.value if isinstance(x, ast.Constant) else "{" + ast.unparse(x.value) + ("" if (x.format_spec is None and x.conversion in (-1, 115)) else ":<format>") + "}" for x in ge.elt.values]
             okw = sep.strip() == "," and sep.startswith(",") and parts == ["{" + v + ".beat}", "=", "{" + v + ".value}"] and ast.unparse(ge.generators[0].iter) == st.param_names()[0]
     ctx.expect("R-TABLE", st, "rows are written beat=value joined by ',' + whitespace", okw, "", f"{src(rr[0].value) if rr else ''}", node=st.node)
     fs_ = ci.methods["from_str"]
@@ -795,8 +806,17 @@ def timing_source_rule(ctx: Ctx) -> None:
     ctx.expect("R-TABLE", (TS, ""), "CHART_TIMING_PROPERTIES are the eleven SSC chart timing properties", set(keys) == SPEC_CHART_TIMING and len(keys) == len(tbl) == 11 and not any(d.alias for d in tbl),
                str(sorted(keys)), f"table keys {sorted(keys)} vs documented {sorted(SPEC_CHART_TIMING)}")
     ctx.expect("R-TABLE", (TS, ""), "they are SSCChart's own descriptors", owners == {"simfile.ssc.SSCChart"}, str(owners), str(owners))
-    thr = p.const(TS, "SSC_VERSION_SPLIT_TIMING")
-    ctx.expect("R-TABLE", (TS, ""), "split timing starts with SSC version 0.7", thr == 0.7, str(thr), f"threshold is {thr}")
+    try:
+        thr = p.const(TS, "SSC_VERSION_SPLIT_TIMING")
+    except AnalysisError:
+        node_ = p.module(TS).top.get("SSC_VERSION_SPLIT_TIMING")
+        val_ = getattr(node_, "value", None)
+        if isinstance(val_, ast.Call) and isinstance(val_.func, ast.Name) and val_.func.id in ("Decimal", "Fraction"):
+            ctx.bad("R-TABLE", (TS, ""), "split timing starts with SSC version 0.7 (a float, compared with float(version))", f"the threshold is {src(val_)}: float(version) is compared with it exactly, "
+                    "and float('0.7') is slightly below the exact decimal 0.7, so version 0.7 itself no longer counts", node=node_)
+            return
+        raise
+    ctx.expect("R-TABLE", (TS, ""), "split timing starts with SSC version 0.7", thr == 0.7 and isinstance(thr, float), str(thr), f"threshold is {thr!r}")
     f = p.func(f"{TS}:timing_source")
     sf, ch = f.param_names()
     from .tables import function_decs, judge, sums_of, atoms_seen, terminal_and_exit
